@@ -2,7 +2,8 @@
 From KG Require Import Prelude C16_Model C16_Spec.
 Open Scope Z_scope.
 
-Record case := { cf : facts; co : obs }.
+Record case := { cf : facts; co : obs;
+                 craw_gate : option string (* raw value of the feature-gate annotation; None = the object has no annotations *) }.
 
 Definition err_code (e : errclass) : Z * Z * Z :=
   match e with
@@ -48,6 +49,8 @@ Definition eval (c : case) : list bool :=
    && ares_eqb (apply_gateway f) (o_create o)
    && ares_eqb (apply_controller f) (o_ctrl o)
    && ares_eqb (apply_limiter f) (o_lim o)
+   (* the parser predicate of the model and the real featuregate.Set (ORACLE f_gate) agree on this raw value *)
+   && gatefact_eqb (gate_of_raw (craw_gate c)) (f_gate f)
    && opt_eqb (list_eqb (fun a b : bool * Z * bool =>
                  (Bool.eqb (fst (fst a)) (fst (fst b)) && Z.eqb (snd (fst a)) (snd (fst b)) && Bool.eqb (snd a) (snd b))%bool))
               (policy_views f) (o_pols o)
